@@ -45,6 +45,11 @@ def step (st : St) (toks : List String) : St × String :=
   -- several responses in flight from one modifier instance: each is what it would be alone, in whatever order the bodies are read
   | ["hold", _kind, c, h] => (st ++ [(c, h)], "held")
   | ["drain", _order] => ([], if st.isEmpty then "-" else " | ".intercalate (st.map fun p => rangeOp p.1 p.2))
+  -- one explicit path mapping key ↦ value on the modifier (the raw request target, if given, is for the harness only)
+  | "pathm" :: root :: k :: v :: p :: _rest =>
+    match unhex root, unhex k, unhex v, unhex p with
+    | some r, some k, some v, some q => (st, classify (resolveMapped r k v q))
+    | _, _, _, _ => (st, "bad-op")
   | ["path", root, p] =>
     match unhex root, unhex p with
     | some r, some q => (st, classify (resolve r q))
